@@ -20,7 +20,8 @@ Every decider is three-valued (`Verdict`):
 * `unknown` — neither; the harness never generates such inputs.
 
 The meaning of the deciders is given by the theorems of `Toq/Properties/C06.lean`
-(`tpDecide_iff`, `unitalDecide_iff`, `hpDecide_iff`, `psdYes_sound`, `negWitness_sound`, …).
+(`tpDecide_iff`, `unitalDecide_iff`, `hpDecide_iff`, `psdYes_sound`, `negWitness_sound`, `extremalDecide_correct`, …);
+the tolerance tests themselves (`np.allclose` with arbitrary `rtol`, `atol`) are mirrored exactly in `Toq/Model/ChannelPropsTol.lean`.
 
 ## Closed forms
 
@@ -168,34 +169,37 @@ def rankQ (r c : Nat) (M : QM) : Nat := Toq.Rank.rankFn r c M.get
 /-- the `dO × di` operator whose column-stacking vector is column `q` of `J`:  `W[a, i] = J[(i,a), q]` -/
 def unvecCol (_di dO : Nat) (J : QM) (q : Nat) : Nat → Nat → QI := fun a i => J.get (i * dO + a) q
 
-/-- `Wᴴ W'` flattened to a vector of length `di²` -/
-def adjMulFlat (di dO : Nat) (W W' : Nat → Nat → QI) : Array QI :=
-  (Array.range (di * di)).map fun f =>
-    let i := f / di
-    let j := f % di
-    sumN dO fun a => (W a i).conj * W' a j
+/-- `Wᴴ W'` flattened (row-major, NumPy `.flatten()`): entry `f` is `(Wᴴ W')[f / di, f % di]` -/
+def adjMulEntry (di dO : Nat) (W W' : Nat → Nat → QI) (f : Nat) : QI :=
+  sumN dO fun a => (W a (f / di)).conj * W' a (f % di)
 
-/-- Extremality of a completely positive map with Choi matrix `J` by Choi's criterion: with
-    `W_1 … W_r` a basis of `span {K_i}` (= the operators of `r = rank J` independent columns of `J`),
-    the `r²` operators `W_kᴴ W_l` are linearly independent.  (The criterion is invariant under invertible
-    changes of the basis `W`, so any basis of the column space may be used; cited, not proved.) -/
+/-- the `r² × di²` array whose row `t = k·r + l` is the flattened product `W_kᴴ W_l`
+    (`[np.dot(A.conj().T, B).flatten() for A in kraus_ops for B in kraus_ops]`, one product per row) -/
+def prodRows (di dO : Nat) (Ws : List (Nat → Nat → QI)) : QM :=
+  let r := Ws.length
+  QM.ofFn (r * r) (di * di) fun t f =>
+    adjMulEntry di dO (Ws.getD (t / r) fun _ _ => 0) (Ws.getD (t % r) fun _ _ => 0) f
+
+/-- Extremality of a channel with Choi matrix `J` by Choi's criterion: with `W_1 … W_r` a basis of `span {K_i}`
+    (= the operators of `r = rank J` independent columns of `J`), the `r²` operators `W_kᴴ W_l` are linearly
+    independent.  Correct for every channel: `Toq.C06.extremalDecide_correct` (the answer is `true` exactly when the
+    channel is an extreme point of the convex set of channels). -/
 def extremalDecide (di dO : Nat) (J : QM) : Bool :=
   let N := di * dO
   let piv := pivotCols N N J
   let r := piv.length
   let Ws := piv.map (unvecCol di dO J)
-  let fam : List (Array QI) := Ws.flatMap fun W => Ws.map fun W' => adjMulFlat di dO W W'
   -- rows = the r² flattened operators
-  rankQ (r * r) (di * di) fam.toArray == r * r
+  rankQ (r * r) (di * di) (prodRows di dO Ws) == r * r
 
 /-- the procedure of `is_extremal.py` on a Kraus list as given (no reduction to an independent family):
-    `matrix_rank(column_stack([A_iᴴ A_j])) == r²`, `True` for a single operator -/
+    `matrix_rank(column_stack([A_iᴴ A_j])) == r²`, `True` for a single operator.  Correct when the list is linearly
+    independent (`Toq.C06.extremalAsCoded_correct`); `false` on every linearly dependent list of two or more operators
+    (`Toq.C06.extremalAsCoded_dependent`). -/
 def extremalAsCoded (di dO : Nat) (Ks : List (Nat → Nat → QI)) : Bool :=
   let r := Ks.length
   if r == 1 then true
-  else
-    let fam : List (Array QI) := Ks.flatMap fun W => Ks.map fun W' => adjMulFlat di dO W W'
-    rankQ (r * r) (di * di) fam.toArray == r * r
+  else rankQ (r * r) (di * di) (prodRows di dO Ks) == r * r
 
 /-! ## from toqito's argument forms to the Choi matrix -/
 
